@@ -1,7 +1,7 @@
 //! Generator of load graphs (shared by C02, C03, C39, C05 histories).
 
 use crate::loader::Fmt;
-use crate::resolve::{all_matches, relative_matches};
+use crate::resolve::{all_matches, relative_matches, winners_under_all_readings};
 use crate::simfs::SimFs;
 use crate::spec::*;
 use vcommon::Rng;
@@ -122,6 +122,14 @@ fn spell(
         let m = all_matches(fs, bases, iname, &url, kind == LoadKind::Import);
         if m.len() == 1 && m.contains(target) {
             return Some(url);
+        }
+        // every admissible reading of the rule reaches the target (e.g. `f1` when both f1.scss and
+        // f1/index.scss exist: the first candidate wins under all of them)
+        {
+            let w = winners_under_all_readings(fs, bases, ib, iname, &url, kind == LoadKind::Import);
+            if w.len() == 1 && w.contains(&Some(target.to_string())) {
+                return Some(url);
+            }
         }
         // an importer in a sub-directory whose url, taken relative to it, names exactly the target:
         // the first lookup round decides, although the same url means another file elsewhere
@@ -362,6 +370,22 @@ pub fn gen_graph(p: &GraphParams, rng: &mut Rng) -> GraphSpec {
                         files[lib].stmts.insert(pos, Stmt::DefMixin { id, url, target: t });
                         let pos = rng.usize(files[x].stmts.len() + 1);
                         files[x].stmts.insert(pos, Stmt::CallMixin { ns, lib, id });
+                        // the loaded file runs the same library mixin again: the same load RULE (same
+                        // source position) is reached while the file it loads is still loading
+                        if p.cyclic && t != lib && t != x && !paths[t].ends_with(".css") && rng.chance(1, 2) {
+                            if let Some(u2) = spell(&fs, &bases, &paths[t], &paths[lib], LoadKind::Use, p, rng) {
+                                files[t].stmts.push(Stmt::Load {
+                                    kind: LoadKind::Use,
+                                    url: u2,
+                                    target: lib,
+                                    wrap: Wrap::None,
+                                    ns: "nm".into(),
+                                    with_cfg: false,
+                                    filter: 0,
+                                });
+                                files[t].stmts.push(Stmt::CallMixin { ns: "nm".into(), lib, id });
+                            }
+                        }
                     }
                 }
             }
